@@ -595,29 +595,37 @@ inductive CheckResult where
   | error (loc : Option Loc) (c : ErrClass) (n : Node)
   | panic (msg : String)
 
-/-- `checker.Check`: visit, then the located error and the `expect` test (as written at the snapshot the
-`expect` test came first) -/
+inductive ExpectFail where
+  | mismatch      -- "expected …, but got …" (unlocated)
+  | panic         -- `.Kind()` on a nil `reflect.Type`
+  deriving DecidableEq, Repr
+
+/-- the test of the result directive (`AsBool`: the kind is exactly bool; `AsInt64`/`AsFloat64`: a
+number); `none` = satisfied -/
+def expectTest (dt : TDefects) (e : Expect) (t : OTy) : Option ExpectFail :=
+  match e with
+  | .none => none
+  | .int64 | .float64 => if isNumberT t then none else some .mismatch
+  | .bool =>
+    match t with
+    | none => if dt.nilKindPanic then some .panic else some .mismatch
+    | some tt => if tt.kind == .bool then none else some .mismatch
+
+def ExpectFail.result (n' : Node) : ExpectFail → CheckResult
+  | .mismatch => .error none .expected n'
+  | .panic => .panic "nil Type.Kind()"
+
+/-- `checker.Check`: visit, then the located error and the test of the result directive (at the
+snapshot the directive was tested first, `expectFirst`) -/
 def check (cfg : CheckCfg) (n : Node) : CheckResult :=
   let (n', t, st) := visit cfg n {}
   match st.panic with
   | some msg => .panic msg
   | none =>
-    let expectErr : Option (Option String) :=     -- some none = mismatch error, some (some m) = panic
-      match cfg.expect with
-      | .none => none
-      | .int64 | .float64 => if !isNumberT t then some none else none
-      | .bool =>
-        match t with
-        | none => if cfg.dt.nilKindPanic then some (some "nil Type.Kind()") else some none
-        | some tt => if tt.kind != .bool then some none else none
-    let located : Option CheckResult := st.err.map fun e => .error (some e.1) e.2 n'
-    let expected : Option CheckResult :=
-      match expectErr with
-      | some (some m) => some (.panic m)
-      | some none => some (.error none .expected n')
-      | none => none
-    match (if cfg.dt.expectFirst then expected.orElse (fun _ => located) else located.orElse (fun _ => expected)) with
-    | some r => r
-    | none => .ok n' t
+    match st.err, expectTest cfg.dt cfg.expect t with
+    | none, none => .ok n' t
+    | some e, none => .error (some e.1) e.2 n'
+    | none, some f => f.result n'
+    | some e, some f => if cfg.dt.expectFirst then f.result n' else .error (some e.1) e.2 n'
 
 end ExprModel
